@@ -44,6 +44,9 @@ partial def expandToks : List String → List Int
   | t :: rest => toInt t :: expandToks rest
   | [] => []
 
+/-- the observation stream is kept ASCII: bytes ≥ 128 in names are shown as `?` -/
+def asciiName (s : String) : String := String.ofList (s.toList.map fun c => if c.toNat < 128 then c else '?')
+
 /-- definition ops: `yaep_read_grammar` through the callbacks -/
 def judgeDefRes (prop : String) (cid : String) (o : Op) (res : Except ErrCode Grammar) (hs : HState) (out : Out) : HState × Out := Id.run do
   let mut out := out
@@ -68,19 +71,19 @@ def judgeDefRes (prop : String) (cid : String) (o : Op) (res : Except ErrCode Gr
       -- deep tie: flags per nonterminal, rules
       let nl := g.nullable; let pr := g.productive; let rch := g.reachable; let lp := g.loopSet
       let expSyms := strSet ((List.range g.nN).map fun A =>
-        s!"{g.ntNames.getD A "?"} {A} e={if nl.contains A then 1 else 0} a={if rch.contains A then 1 else 0} d={if pr.contains A then 1 else 0} l={if lp.contains A then 1 else 0}")
+        s!"{asciiName (g.ntNames.getD A "?")} {A} e={if nl.contains A then 1 else 0} a={if rch.contains A then 1 else 0} d={if pr.contains A then 1 else 0} l={if lp.contains A then 1 else 0}")
       let gotSyms := strSet ((o.get "sym").filterMap fun ws => match ws with
         | "N" :: rest => some (" ".intercalate rest) | _ => none)
       out := out.v cid o.n prop "D" (expSyms == gotSyms) s!"flags model={expSyms} impl={gotSyms}"
-      let expTerms := strSet ((List.range g.nT).map fun a => s!"{g.termNames.getD a "?"} {g.termCodes.getD a 0} {a}")
+      let expTerms := strSet ((List.range g.nT).map fun a => s!"{asciiName (g.termNames.getD a "?")} {g.termCodes.getD a 0} {a}")
       let gotTerms := strSet ((o.get "sym").filterMap fun ws => match ws with
         | "T" :: rest => some (" ".intercalate rest) | _ => none)
       out := out.v cid o.n prop "D" (expTerms == gotTerms) s!"terms model={expTerms} impl={gotTerms}"
       let symName := fun (s : Sym) => match s with
-        | .t a => g.termNames.getD a "?" | .n A => g.ntNames.getD A "?"
+        | .t a => asciiName (g.termNames.getD a "?") | .n A => asciiName (g.ntNames.getD A "?")
       let expRules := (List.range g.rules.length).map fun i =>
         let r := g.rules.getD i default
-        s!"{i} {g.ntNames.getD r.lhs "?"} {r.anode.getD "-"} {r.cost} {r.transLen} {r.rhs.length} " ++
+        s!"{i} {asciiName (g.ntNames.getD r.lhs "?")} {asciiName (r.anode.getD "-")} {r.cost} {r.transLen} {r.rhs.length} " ++
           " ".intercalate (r.rhs.map symName) ++ " / " ++
           " ".intercalate (r.order.map fun x => match x with | some k => toString k | none => "-1")
       let gotRules := (o.get "grule").map fun ws => " ".intercalate ws
@@ -153,6 +156,13 @@ def judgeParse (cfg : ParseCfg) (cid : String) (o : Op) (hs : HState) (out : Out
   let expCode := (hs.record expRc).lastErr
   out := out.v cid o.n "C15" "K" (code == expCode) s!"error_code={code} expected={expCode}"
   let hs' := hs.record expRc
+  -- C09: the goto-cache self-check hook recomputed every reused set
+  match o.first "cache" with
+  | some ws =>
+    let hits := kvInt ws "hits"; let mism := kvInt ws "mismatches"
+    if hits > 0 || mism > 0 then
+      out := out.v cid o.n "C09" "K" (mism == 0) s!"goto cache: {hits} reused sets recomputed, {mism} differ"
+  | none => pure ()
   if expRc != 0 || rc != 0 then
     if rc != 0 then
       out := out.v cid o.n "C15" "K" (rootS == "null" && nse == 0) s!"failed parse root={rootS} nse={nse}"
@@ -220,6 +230,16 @@ def judgeParse (cfg : ParseCfg) (cid : String) (o : Op) (hs : HState) (out : Out
     out := out.v cid o.n "C06" "K" incr s!"error tokens strictly increase: {errs}"
     let k : Nat := err.getD 0
     out := out.v cid o.n "C06" "K" (errs.head? == some (k : Int)) s!"first error token={errs.head?} model={k}"
+    -- C08: the first recovery ignores no more tokens than any simple recovery
+    if n ≤ 40 then
+      let full := w ++ [g.eofT]
+      let pl0 : List PSet := (List.range pl.length).map fun j =>
+        { term := if j = 0 then none else full[j - 1]?, tok := if j = 0 then none else some (j - 1), items := pl.getD j [] }
+      match simpleRecoveryMin g g.analysis mla rmatch full pl0 k, calls.head? with
+      | some m, some c0 =>
+        let ignored := c0.getD 4 0 - c0.getD 2 0
+        out := out.v cid o.n "C08" "K" (ignored ≤ Int.ofNat m) s!"first recovery ignores {ignored} tokens, cheapest simple recovery {m}"
+      | _, _ => out := out.s cid "no simple recovery"
     if recModelOk then
       let exp := rr.calls.map fun (e, a, b) =>
         [toString e, toString (attrOf e), toString a, toString (attrOf a), toString b, toString (attrOf b)]
